@@ -3,7 +3,7 @@
 import ast
 
 from .. import bitalg
-from ..astutil import Env, chain, src, walk, const, stmts, strip_not, kwarg
+from ..astutil import Env, chain, src, walk, const, stmts, strip_not, kwarg, canon_comp
 from ..model import Unrecognised
 from ..sorts import Sorter
 from .c13 import name_is
@@ -416,36 +416,57 @@ def init_template(model, R, rules):
         inner = v.args[0] if isinstance(v, ast.Call) and name_is(v.func, 'tuple') and v.args else v
         sortcall = inner if isinstance(inner, ast.Call) and name_is(inner.func, 'sorted') else None
         gen = sortcall.args[0] if sortcall is not None and sortcall.args else inner
+        # the recorded extents may also be sorted first and resolved afterwards: (mapping[e] for e in sorted(c.attr, key=K'))
+        raw_sort = None
+        git = gen.generators[0].iter if isinstance(gen, (ast.GeneratorExp, ast.ListComp)) and len(gen.generators) == 1 else None
+        if sortcall is None and isinstance(git, ast.Call) and name_is(git.func, 'sorted') and git.args:
+            raw_sort = git
+            git = git.args[0]
         if L:
             ok = (isinstance(gen, (ast.GeneratorExp, ast.ListComp)) and len(gen.generators) == 1 and not gen.generators[0].ifs
-                  and chain(gen.generators[0].iter) == [cv, attr] and isinstance(gen.elt, ast.Subscript) and name_is(gen.elt.value, mp)
+                  and chain(git) == [cv, attr] and isinstance(gen.elt, ast.Subscript) and name_is(gen.elt.value, mp)
                   and name_is(gen.elt.slice, src(gen.generators[0].target)))
+            want_text = f'({mp}[e] for e in {cv}.{attr})'
+            found_text = canon_comp(gen) if isinstance(gen, (ast.GeneratorExp, ast.ListComp)) else src(gen)[:100]
             R.check(ok, L, func, a[0], f'Lattice: {attr} are the members registered under the recorded extents, all of them',
-                    f'({mp}[e] for e in {cv}.{attr})', src(gen)[:100])
+                    canon_comp(ast.parse(want_text, mode='eval').body), found_text[:140])
         if O:
-            key = None
-            if sortcall is not None:
-                kws = {k.arg: k.value for k in sortcall.keywords}
-                key = kws.get('key')
-                rev = kws.get('reverse')
-                key = env.expand(key) if key is not None else None
-                kname = (chain(key) or [''])[-1].lstrip('_') if key is not None else None
-                if kname == keyname and rev is None:
-                    R.ok(O, func, a[0], f'Lattice: {attr} sorted by {keyname}')
-                elif rev is not None or kname in ('shortlex', 'longlex'):
-                    R.bad(O, func, a[0], f'Lattice: {attr} sorted by {keyname}', f'sorted(..., key={keyname})',
-                          f'key={src(key)}' + (f', reverse={src(rev)}' if rev is not None else ''))
-                else:
-                    # another key function of the class: decide it by what it returns
-                    kc = chain(key) or []
-                    target = func.cls.methods.get(kc[-1]) if func.cls is not None and kc else None
-                    if target is not None:
-                        R.returns(target, f'{target.params[-1]}._extent.{keyname}()', O, f'Lattice: {attr} sorted by {keyname} (key function {kc[-1]})',
-                                  consequence='any key that is not the full positional key leaves ties in generation order')
-                    else:
-                        R.unknown(O, func, a[0], f'Lattice: {attr} sort key', src(key))
-            else:
+            call = sortcall or raw_sort
+            if call is None:
                 R.bad(O, func, a[0], f'Lattice: {attr} sorted by {keyname}', f'sorted(..., key={keyname})', 'not sorted')
+                continue
+            kws = {k.arg: k.value for k in call.keywords}
+            key = kws.get('key')
+            rev = kws.get('reverse')
+            key = env.expand(key) if key is not None else None
+            kname = None
+            if key is not None and call is sortcall:
+                kname = (chain(key) or [''])[-1].lstrip('_')
+            elif key is not None:
+                # a key on the bit vectors themselves: operator.methodcaller('<name>') or lambda e: e.<name>()
+                if (isinstance(key, ast.Call) and (chain(key.func) or [''])[-1] == 'methodcaller' and len(key.args) == 1 and isinstance(const(key.args[0]), str)):
+                    kname = const(key.args[0])
+                elif (isinstance(key, ast.Lambda) and len(key.args.args) == 1 and isinstance(key.body, ast.Call) and not key.body.args
+                      and isinstance(key.body.func, ast.Attribute) and name_is(key.body.func.value, key.args.args[0].arg)):
+                    kname = key.body.func.attr
+            if kname == keyname and rev is None:
+                R.ok(O, func, a[0], f'Lattice: {attr} sorted by {keyname}')
+            elif rev is not None or kname in ('shortlex', 'longlex') or (call is raw_sort and kname is not None):
+                R.bad(O, func, a[0], f'Lattice: {attr} sorted by {keyname}', f'sorted(..., key={keyname})',
+                      f'key={src(key)}' + (f', reverse={src(rev)}' if rev is not None else ''))
+            elif call is sortcall and key is not None:
+                # another key function of the class: decide it by what it returns
+                kc = chain(key) or []
+                target = func.cls.methods.get(kc[-1]) if func.cls is not None and kc else None
+                if target is not None:
+                    R.returns(target, f'{target.params[-1]}._extent.{keyname}()', O, f'Lattice: {attr} sorted by {keyname} (key function {kc[-1]})',
+                              consequence='any key that is not the full positional key leaves ties in generation order')
+                else:
+                    R.unknown(O, func, a[0], f'Lattice: {attr} sort key', src(key))
+            elif key is None:
+                R.bad(O, func, a[0], f'Lattice: {attr} sorted by {keyname}', f'sorted(..., key={keyname})', 'sorted without a key (by the integer value of the bit vector / unorderable members)')
+            else:
+                R.unknown(O, func, a[0], f'Lattice: {attr} sort key', src(key))
     # _init call
     calls = [n for n in walk(func.body) if isinstance(n, ast.Call) and (chain(n.func) or [''])[-1] == '_init']
     if G:
